@@ -23,7 +23,7 @@ TRUSTED = ["Coq kernel 8.16.1", "Coq extraction + OCaml 4.13.1", "runner/Packet/
 
 # oracle kinds per property
 C03_KINDS = ("roundtrip-", "tlv-exact", "name-bytes-roundtrip", "comp-bytes-roundtrip", "same-name-in-packet", "same-hint-entries", "same-finalname-reuse")
-C12_KINDS = ("sigcovered-", "same-handed-to-signer", "same-reuse-", "params-digest", "validate-", "tamper-")
+C12_KINDS = ("sigcovered-", "same-handed-to-signer", "same-reuse-", "same-seq-", "params-digest", "validate-", "tamper-")
 C03_DIV = ("MKDATA", "MKINT", "RD-", "WALK", "NAMEB", "COMPB")
 C12_DIV = ("VALID-", "RD-", "MKDATA", "MKINT")
 
@@ -111,6 +111,8 @@ def run(R, pid):
             if not os.path.exists(vo):
                 return True
             t = os.path.getmtime(vo)
+            if os.path.getmtime(os.path.join(d, v)) > t:
+                return True
             return any(os.path.getmtime(os.path.join(d, f)) > t for f in os.listdir(d) if f.endswith((".v", ".vo")) and f[:-2 if f.endswith(".v") else -3] not in ("Props_C03", "Props_C12", "Extract", "SigProofs") and not (f.endswith(".vo") and f[:-3] == v[:-2]))
         def loads(v):
             # mtimes are not reliable across copies of the tree: ask Coq whether the compiled file still fits its dependencies
